@@ -46,7 +46,7 @@ Definition p_esc (p : str) : option (N * str) :=
   end.
 
 (* ranges up to the closing ']' ; fuel only bounds the recursion
-   (never exhausted for fuel > length p: GlobProofs.p_ranges_fuel) *)
+   (never exhausted for fuel > length p: GlobParse.p_ranges_fuel, parse_f_fuel) *)
 Fixpoint p_ranges (fuel : nat) (p : str) (acc : list (N * N)) : option (list (N * N) * str) :=
   match fuel with
   | O => None
@@ -184,3 +184,20 @@ Fixpoint lits_aligned (is : list item) : bool :=
 
 Definition pattern_aligned (p : str) : bool :=
   match parse_pattern p with Some is => lits_aligned is | None => true end.
+
+(* every byte below 128 *)
+Definition ascii_str (p : str) : bool := forallb (fun b => b <? 128) p.
+
+(* utf8.ValidString: the string is a sequence of well-formed UTF-8 characters *)
+Fixpoint utf8_valid_f (fuel : nat) (s : str) : bool :=
+  match s with
+  | [] => true
+  | _ =>
+    match fuel with
+    | O => false
+    | S f =>
+      let (r, n) := decode_rune s in
+      if (r =? rune_error) && Nat.eqb n 1 then false else utf8_valid_f f (skipn n s)
+    end
+  end.
+Definition utf8_valid (s : str) : bool := utf8_valid_f (length s) s.
